@@ -292,22 +292,26 @@ fn two_level_case(second_type: u8) {
     core::mem::forget(tree);
 }
 
-// @harness props=C12 tier=thorough timeout=3600 mem=32 stubbing=1 flavor=nodebug replay=scenario:page_alter attempt=1
-// @desc (attempted: the SAT back end runs out of memory at 30 GB during propositional reduction after 320-850 s, with and without whole-function checksum stubs - page bytes read through the Arc<[u8]> of a PageImpl are not constants for CBMC, so the recursion is explored to the unwind bound) RawBtree::verify_checksum on a two-level tree whose root branch has the documented layout with ARBITRARY stored child checksums and separator and whose two children are well-formed leaves with ARBITRARY computed checksums: it returns Ok(true) if and only if the root's checksum equals the header's AND EVERY child's computed checksum - the last one included - equals the checksum the branch stores for it; whenever the root and the first child verify, the last child is fetched and checked
-// @functions RawBtree::{verify_checksum,verify_checksum_helper}, branch_checksum, leaf_checksum, BranchAccessor::{new,child_page,child_checksum,count_children,key}
-// @bound depth 2, one separator (2 bytes, variable-width keys), two 64-byte one-pair leaves with concrete contents; the three computed checksums, the two stored child checksums and the root checksum in the header arbitrary; profile without debug assertions
-// @stubs PageResolver::get_page -> the k-th fetch returns page k of the harness table and ASSERTS that page k was asked for; leaf_checksum / branch_checksum -> Ok(per-page symbolic constant) (the pages are well-formed; their behaviour on arbitrary pages is c12_checksum_total); alloc::fmt::format -> empty; crate::panicking -> false
+// @harness props=C12 tier=quick timeout=900 mem=12 stubbing=1 flavor=nodebug replay=scenario:page_alter
+// @desc RawBtree::verify_checksum on a two-level tree (branch root with two children in the documented layout, two well-formed leaves) for ARBITRARY computed checksums of all three pages and an ARBITRARY root checksum in the header: it returns Ok(true) if and only if the root's computed checksum equals the header's AND EVERY child's computed checksum - the last one included - equals the checksum the branch stores for it; whenever the root and the first child verify, the last child is fetched and checked; pages are fetched root first, then the children in order
+// @functions RawBtree::{new,verify_checksum,verify_checksum_helper}, branch_checksum, leaf_checksum, BranchAccessor::{new,child_page,child_checksum,count_children,key,key_end}, LeafAccessor::{new,num_pairs,value_end}
+// @bound depth 2, one separator, two one-pair leaves; every page byte concrete (stored child checksums are two fixed constants - a single symbolic byte in a page handed out as Arc<[u8]> defeats CBMC's constant propagation and the recursion no longer closes, DESIGN.md 9.1); the three computed checksums and the header's root checksum arbitrary (so every agreement / disagreement pattern between stored and computed checksums is covered); profile without debug assertions
+// @stubs PageResolver::get_page -> the k-th fetch returns page k of the harness table and ASSERTS that page k was asked for; xxh3_checksum -> per-page symbolic constant; alloc::fmt::format -> empty; crate::panicking -> false; Arc::drop_slow -> no-op (pages leaked)
 #[kani::proof]
 #[kani::unwind(3)]
 #[kani::stub(PageResolver::get_page, stub_get_page_seq)]
-#[kani::stub(crate::tree_store::btree_base::leaf_checksum, stub_leaf_ck)]
-#[kani::stub(crate::tree_store::btree_base::branch_checksum, stub_branch_ck)]
+#[kani::stub(crate::tree_store::page_store::xxh3_checksum, stub_checksum)]
 #[kani::stub(alloc::fmt::format, no_format)]
 #[kani::stub(alloc::sync::Arc::drop_slow, stub_arc_drop_slow)]
 #[kani::stub(crate::panicking, not_panicking)]
 fn c12_verify_every_child_checked() {
-    let stored: [u128; 2] = kani::any();
-    let key: [u8; 2] = kani::any();
+    // Every page byte is a CONSTANT: one symbolic byte inside an Arc'ed page makes the whole page
+    // opaque to CBMC's constant propagation (measured: DESIGN.md 9.1) and the recursion explodes.
+    // The stored child checksums are therefore fixed numbers; what stays symbolic is every COMPUTED
+    // checksum (CK, returned by the checksum stub) and the root checksum in the header, so the
+    // solver still ranges over every way in which stored and computed checksums can (dis)agree.
+    let stored: [u128; 2] = [0x1111_2222_3333_4444_5555_6666_7777_8888, 0x9999_aaaa_bbbb_cccc_dddd_eeee_ffff_0001];
+    let key: [u8; 2] = [5, 5];
     // Pages written byte by byte in the documented layout (docs/design.md; the builders are shown
     // to emit exactly this layout by c10_branch_build_* / c10_leaf_build_*): straight-line
     // stores keep every structural byte a constant for the solver
